@@ -362,7 +362,7 @@ impl RoundTrips {
                 cases.push(("double(string(x)) == x", "double-string", V::Dbl(d)));
             }
         }
-        for s in ["", "a", "é", "aé😀", "a'b\"c\\", "\0", "{x}", "\u{ffff}", "line\nbreak"] {
+        for s in ["", "a", "é", "aé😀", "a'b\"c\\", "\0", "{x}", "\u{ffff}", "line\nbreak", "\u{feff}", "\u{feff}a", "a\u{feff}", "\u{feff}\u{feff}é", "\u{fffe}", "\u{200b}a"] {
             cases.push(("string(bytes(x)) == x", "string-bytes", V::s(s)));
             cases.push(("bytes(string(bytes(x))) == bytes(x)", "bytes-string-bytes", V::s(s)));
             cases.push(("size(bytes(x)) == size(x)", "bytes-size", V::s(s)));
@@ -413,6 +413,60 @@ impl RoundTrips {
         acc.nontrivial(&(site, idx));
         if acc.wants_sample() {
             acc.sample(json!({"law": law, "x": x.show()}));
+        }
+    }
+}
+
+// ---- texts of instants: every accepted format denotes the instant it spells --------------------
+
+fn instant_texts() -> Vec<(String, i64, &'static str)> {
+    use chrono::{FixedOffset, TimeZone};
+    let mut v = Vec::new();
+    for secs in [0i64, 1_057_049_557, 1_700_000_000, -1, 951_782_400, 253_402_300_799, -2_208_988_800] {
+        for off in [0i32, 2 * 3600, -5 * 3600, 5 * 3600 + 1800, -(9 * 3600 + 1800), 14 * 3600, -12 * 3600, 60] {
+            let tz = match FixedOffset::east_opt(off) {
+                Some(t) => t,
+                None => continue,
+            };
+            let dt = match tz.timestamp_opt(secs, 0).single() {
+                Some(d) => d,
+                None => continue,
+            };
+            v.push((dt.to_rfc3339(), secs, "rfc3339"));
+            v.push((dt.to_rfc3339().replace('T', "t"), secs, "rfc3339-lower-case-t"));
+            if dt.format("%Y").to_string().len() == 4 && secs >= -2_208_988_800 {
+                v.push((dt.to_rfc2822(), secs, "rfc2822"));
+            }
+            if off == 0 {
+                v.push((dt.format("%Y-%m-%dT%H:%M:%SZ").to_string(), secs, "rfc3339-z"));
+            }
+        }
+    }
+    v
+}
+
+fn run_instant_text(idx: u64, acc: &mut Acc) {
+    let texts = instant_texts();
+    let (text, secs, fmt) = &texts[idx as usize];
+    let want = V::Ts(*secs as i128 * NS);
+    for (form, src, binds) in [
+        ("bound", "timestamp(x)".to_string(), vec![("x", V::s(text))]),
+        ("literal", format!("timestamp({})", crate::val::str_lit(text)), vec![]),
+        ("compared", "timestamp(x) == timestamp(y)".to_string(), vec![("x", V::s(text)), ("y", V::Int(*secs))]),
+    ] {
+        let got = real::eval(&src, &binds);
+        acc.eval();
+        acc.class(&got.class());
+        // a spelling the implementation does not accept at all is not a wrong conversion
+        if got.is_fail() {
+            acc.count(&format!("instant texts not accepted ({})", fmt), 1);
+            continue;
+        }
+        let ok = if form == "compared" { matches!(got.value(), Some(V::Bool(true))) } else { got.value().map(|g| g.same(&want)).unwrap_or(false) };
+        if !ok {
+            acc.violation(&format!("timestamp(text) {} denotes-another-instant", fmt), json!({"src": src, "text": text, "seconds": secs, "form": form}), want.show(), got.show());
+        } else {
+            acc.nontrivial(&(idx, form));
         }
     }
 }
@@ -616,12 +670,13 @@ pub fn replay_families(t: Tier) -> Vec<Family<'static>> {
         Family::new("roundtrips", r.size(), move |i, a| r.run(i, a)),
         Family::new("fstrings", f.size(), move |i, a| f.run(i, a)),
         Family::new("string-injective", injective_grids().len() as u64, run_injective),
+        Family::new("instant-texts", instant_texts().len() as u64, run_instant_text),
     ]
 }
 
 pub fn run(t: Tier) -> i32 {
     let mut rep = Report::new(ID, t, "exploration");
-    rep.rule = "conversions: every value of the numeric boundary grid, a string grid (decimal and exponent renderings of every grid number, signs, blanks, separators, non-ASCII digits, out-of-range digit strings, bool literals, timestamps, durations), bytes (valid and invalid UTF-8), and one value of every other type x the 10 constructors, bound and literal, against the reference conversion (Unspecified where the property does not fix the answer) plus type(T(x)) == T; roundtrips: int(string(i))==i, uint(string(u))==u, double(string(d))==d over the dense grids and all exponents, string(bytes(s))==s, evaluated inside CEL; string-injective: string() over grids of durations and timestamps down to one nanosecond, ints, uints and doubles never maps two different values to the same text; fstrings: all sequences of 1..N segments over 37 segment kinds (literal text, doubled braces, quotes, embedded variables and embedded compile-time constants of every type)
+    rep.rule = "conversions: every value of the numeric boundary grid, a string grid (decimal and exponent renderings of every grid number, signs, blanks, separators, non-ASCII digits, out-of-range digit strings, bool literals, timestamps, durations), bytes (valid and invalid UTF-8), and one value of every other type x the 10 constructors, bound and literal, against the reference conversion (Unspecified where the property does not fix the answer) plus type(T(x)) == T; roundtrips: int(string(i))==i, uint(string(u))==u, double(string(d))==d over the dense grids and all exponents, string(bytes(s))==s (incl. texts with a byte order mark at the start, inside, twice), evaluated inside CEL; instant-texts: 7 instants x 8 zone offsets spelled by chrono as RFC 3339 (upper and lower case t, Z form) and RFC 2822: timestamp(text) is that instant, bound, literal and compared with timestamp(seconds); string-injective: string() over grids of durations and timestamps down to one nanosecond, ints, uints and doubles never maps two different values to the same text; fstrings: all sequences of 1..N segments over 37 segment kinds (literal text, doubled braces, quotes, embedded variables and embedded compile-time constants of every type)
  x both quotes compared with the concatenation of literal parts and string(e) evaluated by the implementation. Non-trivial = outcome fixed by the property; distinct by index".to_string();
     for f in replay_families(t) {
         rep.run_family(f);
